@@ -786,6 +786,15 @@ impl SysComp {
                     mon.fail("C08", "unclean-teardown", format!("link {} after reconnect attempt: window {} in_flight {} phase {}", c.conn_id, c.window, c.in_flight_packets, show_phase(&c.phase)));
                 }
             }
+            // "connected again within 30 s once the path delivers and the receiver answers" needs a
+            // registration attempt at least every 30 s while the link is down and past its grace
+            if kind == Kind::Hk && pre[i].timed_out && !attempt {
+                let la = pre[i].last_attempt;
+                let past_grace = pre[i].established != 0 || now > w.links[i].reconnection.startup_grace_deadline_ms;
+                if la != 0 && now.saturating_sub(la) >= 30_000 && past_grace {
+                    mon.fail("C08", "retry-gap-exceeds-30s", format!("link {} is down, its last registration attempt was {} ms ago and this tick makes none: a repaired path cannot be connected again within 30 s", c.conn_id, now - la));
+                }
+            }
             // retries forever: a timed-out link whose last attempt is >= 120 s old must retry now
             if kind == Kind::Hk && pre[i].timed_out && !attempt {
                 let la = pre[i].last_attempt;
@@ -1275,6 +1284,11 @@ fn gen_case(rng: &mut Rng, idx: usize) -> Vec<String> {
                     if sent.len() > 64 {
                         sent.remove(0);
                     }
+                }
+                // look the last routed number up in the NAK-attribution tracker (observes who is
+                // remembered as carrier of the unique copy: never a probe link)
+                if rng.chance(1, 3) && !sent.is_empty() {
+                    ops.push(format!("trk {} {now}", sent[sent.len() - 1]));
                 }
                 // the receiver acknowledges most of what it got, on some live link
                 if rng.chance(3, 4) && !sent.is_empty() {
